@@ -76,6 +76,8 @@ class Monitor(object):
     def __init__(self, ctx, coords, beh, params):
         self.ctx, self.coords, self.beh, self.params = ctx, coords, beh, params
         self.bicls = BEH_ICLS[beh]
+        # coarse class used in finding keys of hand-over clauses
+        self.retcls = "operators returning new objects" if beh in ("new", "shallownew", "mixed") else "operators returning the objects they received"
         self.expected, self.pos, self.dead = [], 0, False
         self.trace = []
         self.last = None        # (objects returned by the latest operator, their digests at that time, operator name)
@@ -151,22 +153,22 @@ class Monitor(object):
         ctx.sumnote("hand-overs passing the identical containers" if ident else "hand-overs passing equal but not identical containers")
         bad = [O.NAMES[i] for i in range(5) if d[i] != digs[i]]
         if islog:
-            ctx.check("C20.log.state", not bad, site, "%s sees the state returned by %s" % (kind, pk), self.bicls,
+            ctx.check("C20.log.state", not bad, site, "%s sees the state returned by %s" % (kind, pk), self.retcls,
                       witness=self.witness(differing=bad, identical_objects=ident,
                                            got=[O.brief(conts[i]) for i in range(5) if d[i] != digs[i]][:2],
                                            returned=[O.brief(refs[i]) for i in range(5) if d[i] != digs[i]][:2]), coords=self.coords)
             if kind == "log_pselect":
                 m_ok = mcfg is self.last_mcfg[0] or O.dg(mcfg) == self.last_mcfg[1]
-                ctx.check("C20.log.state", m_ok, site, "log_pselect sees the mating configuration returned by pselect", self.bicls,
+                ctx.check("C20.log.state", m_ok, site, "log_pselect sees the mating configuration returned by pselect", self.retcls,
                           witness=self.witness(got=O.brief(mcfg)), coords=self.coords)
         else:
-            ctx.check("C20.chain", not bad, site, "%s receives the state returned by %s" % (kind, pk), self.bicls,
+            ctx.check("C20.chain", not bad, site, "%s receives the state returned by %s" % (kind, pk), self.retcls,
                       witness=self.witness(differing=bad, identical_objects=ident,
                                            got=[O.brief(conts[i]) for i in range(5) if d[i] != digs[i]][:2],
                                            returned=[O.brief(refs[i]) for i in range(5) if d[i] != digs[i]][:2]), coords=self.coords)
             if kind == "mate":
                 m_ok = self.last_mcfg is not None and (mcfg is self.last_mcfg[0] or O.dg(mcfg) == self.last_mcfg[1])
-                ctx.check("C20.chain.mcfg", m_ok, site, "mate receives the mating configuration returned by pselect", self.bicls,
+                ctx.check("C20.chain.mcfg", m_ok, site, "mate receives the mating configuration returned by pselect", self.retcls,
                           witness=self.witness(got=O.brief(mcfg)), coords=self.coords)
 
     def fresh(self, conts, exp):
@@ -178,24 +180,28 @@ class Monitor(object):
             self.inplace_done = True
         if self.inplace_done:
             ctx.hook("later replicates after in-place mutation")
-        icls = "%s/%s" % (self.bicls, exp.pos)
+        icls = self.mutcls()
         d = O.dgs(conts, self.current)
         bad = [O.NAMES[i] for i in range(5) if d[i] != self.S0[i]]
         ctx.check("C20.fresh.equal", not bad, SITE + "reset", "a replicate's first step receives a state equal to the initial one", icls,
                   witness=self.witness(differing=bad, replicate=exp.r,
                                        got=[O.brief(conts[i]) for i in range(5) if d[i] != self.S0[i]][:2],
                                        initial=[self.S0brief[i] for i in range(5) if d[i] != self.S0[i]][:2]), coords=self.coords)
-        ssink = self.check_start(icls)
+        ssink = self.check_start()
         cur = set(self.current)
         sh = [type(self.current[i]).__name__ for i in cur & set(ssink)]
-        ctx.check("C20.fresh.noalias", not sh, SITE + "reset", "a replicate's first state shares no mutable object with the stored initial state", icls,
+        ctx.check("C20.fresh.noalias", not sh, SITE + "reset", "a replicate's first state shares no mutable object with the stored initial state", "any operators",
                   witness=self.witness(shared_object_types=sorted(set(sh)), n_shared=len(sh), replicate=exp.r), coords=self.coords)
         sh = [type(self.current[i]).__name__ for i in cur & set(self.earlier)]
-        ctx.check("C20.fresh.noalias", not sh, SITE + "reset", "a replicate's first state shares no mutable object with an earlier replicate's state", icls,
+        ctx.check("C20.fresh.noalias", not sh, SITE + "reset", "a replicate's first state shares no mutable object with an earlier replicate's state", "any operators",
                   witness=self.witness(shared_object_types=sorted(set(sh)), n_shared=len(sh), replicate=exp.r), coords=self.coords)
 
-    def check_start(self, icls):
+    def mutcls(self):
+        return "after in-place mutation by operators" if (self.inplace_done or self.inplace_now) else "no in-place mutation so far"
+
+    def check_start(self, extra=None):
         bp = self.bp
+        icls = self.mutcls() + ("/" + extra if extra else "")
         ssink = {}
         start = [bp.start_genome, bp.start_geno, bp.start_pheno, bp.start_bval, bp.start_gmod]
         sd = [O.dg(s, ssink) for s in start]
@@ -224,7 +230,7 @@ class Monitor(object):
                       witness=self.witness(first_missing=missing, n_missing=len(self.expected) - self.pos), coords=self.coords)
         ctx.check("C20.lbook.rep", self.lbook.rep == rep_expected, SITE + "evolve", "lbook.rep after the run == before + nrep", icls_extra,
                   witness=self.witness(lbook_rep=self.lbook.rep, expected=rep_expected), coords=self.coords)
-        self.check_start("%s/%s" % (self.bicls, "after the run"))
+        self.check_start()
 
     def abort_call(self):
         """An injected exception ended the call: forget the rest of the expectations."""
@@ -442,7 +448,7 @@ def _evolve(ctx, mon, bp, lb, nrep, ngen, loginit, verbose, injected):
     except Boom as e:
         ctx.raised("evolve: harness operator raised on purpose", e)
         mon.abort_call()
-        mon.check_start("%s/%s" % (mon.bicls, "after an operator raised"))
+        mon.check_start("an operator raised")
         return False
     except Exception as e:
         ctx.raised("evolve", e)
